@@ -463,6 +463,11 @@ class NumGen:
                     self.lines.append(f'{pad}    {w} = fp.logb({x})')
                     self.lines.append(f'{pad}    if {w} < {r.choice(["0", "2", "-1"])}:')
                     self.lines.append(f'{pad}        {x} = {x} * {r.choice(["2", "4"])}')
+                elif form < 0.65:
+                    # one-armed clamp / flush: the path that fails the test keeps the old value
+                    c = r.choice(['0', '1', '-1', '2', '4', '0.5', '-2'])
+                    self.lines.append(f'{pad}if {x} {r.choice(["<", "<=", ">", ">="])} {c}:')
+                    self.lines.append(f'{pad}    {x} = {r.choice(["0", "1", c, "-0.0", self.expr([x], 1)])}')
                 else:
                     c = r.choice(['0', '1', '-1', '2', '0.5'])
                     self.lines.append(f'{pad}if {x} {r.choice(["<", "<=", ">", ">="])} {c}:')
@@ -619,6 +624,7 @@ DIRECTED = [
     's = 0\n    for e in xs:\n        s = s + e\n    t = x\n    for i in range(3):\n        t = t * 2 + i\n    k = 0\n    while k < 3:\n        with fp.REAL:\n            y = y + y\n        with fp.INTEGER:\n            k = k + 1\n    return (s, t, y)',
     'if fp.isnan(x) or fp.isinf(x):\n        r = 0\n    elif x == 0:\n        r = x\n    else:\n        with fp.REAL:\n            e = fp.logb(x)\n        r = e\n        if e < 0:\n            r = x * 4\n    if y > 1:\n        q = y - 1\n    else:\n        q = y\n    return (r, q)',
     'with I8:\n        a = y * 0.25\n        b = x / 4 + 0.5\n    with Q2:\n        c = x * 0.3\n        d = y / 16\n    return (a, b, c, d)',
+    'a = x\n    if a < 4:\n        a = 0\n    b = y\n    if b >= -2:\n        b = 1\n    c = x\n    if c <= 0:\n        c = c * 2\n    return (a, b, c, a + b)',
     'with Q2:\n        a = fp.round(x)\n        with P3:\n            b = a * y\n        c = a + b\n    with S3:\n        d = fp.floor(c) - fp.ceil(x)\n    return (a, b, c, d, (a if a < b else d))',
 ]
 
